@@ -28,6 +28,10 @@ COMMANDS = {
     'peer_directory': ([NAMES, DIRS], 2),
 }
 ORDER = sorted(COMMANDS)
+# run-time settings change: the application assigns other credentials (for the NEXT login) while the session of 'me'
+# stays active; 'somebody' is also the user name of the near-miss echo (wrong1) of the room commands
+CREDS = [None, 'me2', 'somebody', 'ann']
+OWN_NAME_COMMANDS = ('room_message', 'ticker')     # expected reply carries the name of the SESSION user
 
 
 @st.composite
@@ -39,6 +43,8 @@ def cmd_case(draw):
                                      st.integers(1, 60)), max_size=3))
     return {'t': 'cmd', 'cmd': name, 'args': args, 'script': [list(x) for x in script],
             'timeout': draw(st.sampled_from([30, 50, 100])),
+            # settings.credentials.username = <other name> before the command is executed (session unchanged)
+            'creds': draw(st.sampled_from([0, 0, 1, 2, 3] if name not in OWN_NAME_COMMANDS else [0, 1, 2, 2, 3])),
             # write back pressure on the server connection: drain() (and so command.send()) returns that much later,
             # possibly after the reply was already processed
             'drain_ms': draw(st.sampled_from([0, 0, 0, 8, 20]))}
@@ -56,6 +62,16 @@ def enumerated():
             yield {'t': 'cmd', 'cmd': name, 'args': [1] * len(doms), 'script': [['wrong%d' % w, 5], ['correct', 12]],
                    'timeout': 50}
             yield {'t': 'cmd', 'cmd': name, 'args': [0] * len(doms), 'script': [['wrong%d' % w, 5]], 'timeout': 30}
+        # other credentials were stored in the settings while the session is active: the reply is still the reply
+        for c in ((1, 2) if name in OWN_NAME_COMMANDS else (1,)):
+            yield {'t': 'cmd', 'cmd': name, 'args': [0] * len(doms), 'script': [['correct', 5]], 'timeout': 50,
+                   'creds': c}
+            if name in OWN_NAME_COMMANDS:
+                # the echo of somebody else's message (wrong1) comes first, then the echo of the own message
+                yield {'t': 'cmd', 'cmd': name, 'args': [1] * len(doms), 'script': [['wrong1', 5], ['correct', 12]],
+                       'timeout': 50, 'creds': c}
+                yield {'t': 'cmd', 'cmd': name, 'args': [0] * len(doms), 'script': [['wrong1', 5]], 'timeout': 30,
+                       'creds': c}
 
 
 def _other(dom, v):
@@ -183,6 +199,11 @@ def run_cmd_case(case, res: CaseResult):
         drain = 0.0 if is_peer else max(0, min(40, int(case.get('drain_ms', 0) or 0))) / 1000.0
     except Exception:
         drain = 0.0
+    try:
+        creds = CREDS[int(case.get('creds', 0) or 0) % len(CREDS)]
+    except Exception:
+        creds = None
+    sfx = ':after-credentials-change' if creds else ''
     out = {}
 
     async def main(world):
@@ -210,6 +231,10 @@ def run_cmd_case(case, res: CaseResult):
         world.server.frames.clear()
         if drain:
             client.network.server_connection._writer.transport.drain_delay = drain
+        if creds:
+            # run-time settings change; the session (and what the server echoes) stays that of 'me'
+            client.settings.credentials.username = creds
+            out['session_user'] = client.session.user.name if client.session else None
         cmd = _command(name, args)
         t0 = loop.time()
 
@@ -272,29 +297,29 @@ def run_cmd_case(case, res: CaseResult):
     if outcome is None:
         res.violate('C12/cmd-no-outcome:' + name, '')
     elif outcome[0] == 'error':
-        res.violate(f'C12/cmd-wrong-exception:{name}:{outcome[1]}', outcome[2])
+        res.violate(f'C12/cmd-wrong-exception:{name}:{outcome[1]}{sfx}', outcome[2])
     elif not out.get('request_seen'):
         res.violate('C12/cmd-request-not-sent:' + name, str(outcome))
     elif tie:
         res.label('cmd-tie')
     elif first_correct is not None and first_correct < deadline:
         if outcome[0] == 'timeout':
-            res.violate(f'C12/cmd-reply-ignored:{name}', f'correct reply arrived {first_correct * 1000:.1f} ms after the '
+            res.violate(f'C12/cmd-reply-ignored:{name}{sfx}', f'correct reply arrived {first_correct * 1000:.1f} ms after the '
                         f'request, timeout {timeout} ms; script={sent}')
         elif outcome[1] < first_correct - 0.0015:
-            res.violate(f'C12/cmd-completed-by-non-matching-reply:{name}',
+            res.violate(f'C12/cmd-completed-by-non-matching-reply:{name}{sfx}',
                         f'returned after {outcome[1] * 1000:.1f} ms, correct reply only at {first_correct * 1000:.1f} ms; '
                         f'script={sent}')
         elif outcome[1] > max(first_correct, drain) + 0.004:
-            res.violate(f'C12/cmd-completed-late:{name}', f'{outcome[1]} vs {first_correct} (drain {drain})')
+            res.violate(f'C12/cmd-completed-late:{name}{sfx}', f'{outcome[1]} vs {first_correct} (drain {drain})')
         elif not outcome[2]:
-            res.violate(f'C12/cmd-no-result:{name}', '')
+            res.violate(f'C12/cmd-no-result:{name}{sfx}', '')
     else:
         if outcome[0] == 'result':
-            res.violate(f'C12/cmd-completed-by-non-matching-reply:{name}',
+            res.violate(f'C12/cmd-completed-by-non-matching-reply:{name}{sfx}',
                         f'returned after {outcome[1] * 1000:.1f} ms although no matching reply arrived in time; script={sent}')
         elif not (deadline - 0.004 <= outcome[1] <= late_deadline + 0.004) and (out.get('req_time') or 0) < deadline:
-            res.violate(f'C12/cmd-timeout-at-wrong-time:{name}', f'{outcome[1]} vs {deadline}')
+            res.violate(f'C12/cmd-timeout-at-wrong-time:{name}{sfx}', f'{outcome[1]} vs {deadline}')
     if out.get('residue'):
         res.violate('C12/cmd-residue-in-pending-list:' + name, str(out['residue']))
     for e in loop_errors:
@@ -308,6 +333,11 @@ def run_cmd_case(case, res: CaseResult):
         res.nontrivial = True
     if wrong_before:
         res.label('cmd-near-miss-first')
+    if creds:
+        res.label('cmd-credentials-changed-before-execute')
+        if name in OWN_NAME_COMMANDS:
+            res.label('cmd-credentials-changed:own-name-in-reply')
+            res.nontrivial = True
 
 
 def shard_cmd(ctx):
